@@ -395,3 +395,77 @@ Fixpoint sel_run (fs : list sfield) (gs : list (option st)) (bs : list (list cel
       let g1 := fold_left (sel_add fs) b gs in
       sel_results fs g1 :: sel_run fs (sel_init fs) bs'          (* Reset *)
   end.
+
+(* ---------- HAVING: which batches of a run are delivered ----------
+   stream/processor_data.go processWindowBatch: Add every row; GetResults; processAggregationResults (HAVING filters
+   the result rows, the hidden __having_n__ columns are deleted, the rows that are left are handed to the sinks - nothing
+   is handed over when no row is left); Reset.  The Reset does not depend on what processAggregationResults did with
+   the rows: a batch whose only group HAVING rejected leaves nothing behind for the next batch.
+   rsql extractHavingAggregates: an aggregate call written in the HAVING text becomes one more aggregation field of the
+   same GroupAggregator (hidden column __having_n__); a call identical to a selected item reads that item's column.
+   Here: fs = the fields of the GroupAggregator = the nvis selected calls followed by the hidden ones; a comparison
+   reads field j.  The condition is the one the code evaluates (expr-lang over the result row: comparing a NULL
+   aggregate with a number is a runtime error, an error anywhere that is reached makes the whole condition false,
+   and / or short-circuit from the left); WHICH groups a relational HAVING should keep is C07's subject - C03 needs the
+   decision only to know which batches of a run come out. *)
+Inductive hcmp := HGt | HGe | HLt | HLe.
+Inductive hpred :=
+  | HCmp (o : hcmp) (j : nat) (k : Q)
+  | HAnd (p q : hpred)
+  | HOr (p q : hpred).
+Definition res_q (r : option res) : option Q := match r with Some (RNum q) => Some q | _ => None end.
+Definition hcmp_holds (o : hcmp) (a k : Q) : bool :=
+  match o with
+  | HGt => qltb k a
+  | HGe => Qle_bool k a
+  | HLt => qltb a k
+  | HLe => Qle_bool a k
+  end.
+(* None = runtime error *)
+Fixpoint heval (p : hpred) (rs : list (option res)) : option bool :=
+  match p with
+  | HCmp o j k => match res_q (nth j rs None) with Some a => Some (hcmp_holds o a k) | None => None end
+  | HAnd p q => match heval p rs with Some true => heval q rs | r => r end
+  | HOr p q => match heval p rs with Some false => heval q rs | r => r end
+  end.
+Definition hholds (p : hpred) (rs : list (option res)) : bool :=
+  match heval p rs with Some true => true | _ => false end.
+(* what one batch delivers, given the results of all fields: None = no row reaches the sinks *)
+Definition hav_out (nvis : nat) (p : hpred) (rs : list (option res)) : option (list (option res)) :=
+  if hholds p rs then Some (firstn nvis rs) else None.
+(* consecutive batches on one query instance *)
+Fixpoint hav_run (fs : list sfield) (nvis : nat) (p : hpred) (gs : list (option st)) (bs : list (list cell))
+  : list (option (list (option res))) :=
+  match bs with
+  | [] => []
+  | b :: bs' =>
+      let g1 := fold_left (sel_add fs) b gs in
+      hav_out nvis p (sel_results fs g1) :: hav_run fs nvis p (sel_init fs) bs'     (* Reset, delivered or not *)
+  end.
+(* NOT the code: the same run when the Reset is performed only for a batch that delivered a row (the state of a
+   rejected batch stays).  Used for the witness that the theorems about hav_run tell the two apart. *)
+Fixpoint hav_run_lazy_reset (fs : list sfield) (nvis : nat) (p : hpred) (gs : list (option st)) (bs : list (list cell))
+  : list (option (list (option res))) :=
+  match bs with
+  | [] => []
+  | b :: bs' =>
+      let g1 := fold_left (sel_add fs) b gs in
+      let out := hav_out nvis p (sel_results fs g1) in
+      out :: hav_run_lazy_reset fs nvis p (match out with Some _ => sel_init fs | None => g1 end) bs'
+  end.
+
+(* ---------- an aggregate call written INSIDE an analytic function of a windowed query ----------
+   changed_col(true, sum(x + 1)), lag(max(d.x * 2)), latest(avg(x - 1.5)) ... GROUP BY CountingWindow(N):
+   rsql/ast.go extractInlineAggregates turns the call into a hidden aggregation field __winagg_n__ of the same
+   GroupAggregator and hands its per-window value to the analytic function.
+   AS FOUND (finding F59, not repaired): the hidden field is registered from the call's first FIELD only
+   (fieldMap[hidden] = name); the argument expression that ParseAggregateTypeWithExpression returns is dropped,
+   so the aggregate runs over the bare column.  nested = the column is the path d.x. *)
+Definition inline_shape_asis (nested : bool) (sh : shape) : shape :=
+  match sh with
+  | ShAdd1 | ShMul2 | ShAff _ _ => if nested then ShPath else ShId
+  | _ => sh
+  end.
+Definition inline_field_asis (f : agg) (star : bool) (nested : bool) (sh : shape) : sfield :=
+  let sh' := inline_shape_asis nested sh in
+  (f, if star then MStar else sql_mode sh', sh').
